@@ -677,12 +677,26 @@ def error_closes(ck):
                             return True
                 return False
 
-            bad = _paths_avoiding(fi, hid, closes)
+            def not_transport(m, kind, val, var=var, h=h):
+                # `except OSError as e: if isinstance(e, BlockingIOError): ...` is the BlockingIOError handler written
+                # as a test: on that branch the caught exception is not a transport error
+                if val and var and m.kind == "test" and kind in ("true", "false"):
+                    t, pol = m.ast, True
+                    if isinstance(t, ast.UnaryOp) and isinstance(t.op, ast.Not):
+                        t, pol = t.operand, False
+                    if q.is_call(t, "isinstance") and len(t.args) == 2 and q.dotted(t.args[0]) == var and not q.stores_to(h, var):
+                        cl = t.args[1].elts if isinstance(t.args[1], ast.Tuple) else [t.args[1]]
+                        nm = [q.dotted(c) for c in cl]
+                        if nm and all(x and x.split(".")[-1] in ("BlockingIOError",) for x in nm) and kind == ("true" if pol else "false"):
+                            return False
+                return val
+
+            bad = _paths_avoiding(fi, hid, closes, not_transport)
             ck.ob("C13.error-closes", fi, h, not bad, "a transport error caught in %s closes the stream with that error (close(exc_info=%s)) on every path, so pending operations fail with StreamClosedError carrying the real error" % (qn.split(".")[-1], var or "..."))
     ck.floor("C13.error-closes", n, 5, "transport-error handlers")
 
 
-def _paths_avoiding(fi, starts: Set[int], end) -> bool:
+def _paths_avoiding(fi, starts: Set[int], end, edge=None) -> bool:
     cfg = fi.cfg
 
     def tr(n, val):
@@ -692,7 +706,7 @@ def _paths_avoiding(fi, starts: Set[int], end) -> bool:
             return False
         return val
 
-    seen = explore(cfg, False, tr, lambda t: False, exc_effect=True)
+    seen = explore(cfg, False, tr, lambda t: False, edge_transfer=edge, exc_effect=True)
     return any(v for _f, v in seen.get(cfg.exit.id, ()))
 
 
